@@ -156,6 +156,64 @@ func c16Racing(rng *rand.Rand, seq int) (viols []string, stats map[string]int) {
 			break
 		}
 	}
+	// erasing a departed member: the force-leave with prune turns a failed member into a left one
+	// and then erases it, and the application must see it in that order: failed, leave, reap
+	for k := 0; k < 6 && len(viols) == 0; k++ {
+		name := fmt.Sprintf("pr-m%d", k)
+		fn := cluster.FakeNode(name, fmt.Sprintf("10.18.0.%d", k+1), 7946, nil)
+		nd.NotifyJoin(fn)
+		want := "failed,leave,reap"
+		if k%2 == 0 {
+			nd.NotifyLeave(fn) // crashed
+		} else {
+			nd.NotifyMsg(wire.Encode(wire.Leave, &wire.MsgLeave{LTime: uint64(5000 + 10*k), Node: name}))
+			nd.NotifyLeave(fn) // left gracefully
+			want = "leave,reap"
+		}
+		if k >= 4 {
+			if err := nd.S.RemoveFailedNodePrune(name); err != nil {
+				viols = append(viols, "RemoveFailedNodePrune: "+err.Error())
+			}
+		} else {
+			nd.NotifyMsg(wire.Encode(wire.Leave, &wire.MsgLeave{LTime: uint64(5005 + 10*k), Node: name, Prune: true}))
+		}
+		marker := fmt.Sprintf("marker-prune-%d-%d", seq, k)
+		if err := nd.S.UserEvent(marker, nil, false); err != nil {
+			return []string{"setup: marker event: " + err.Error()}, stats
+		}
+		deadline := time.Now().Add(60 * time.Second)
+		for {
+			var got []string
+			seen := false
+			for _, le := range nd.Events() {
+				switch e := le.E.(type) {
+				case serf.MemberEvent:
+					for _, m := range e.Members {
+						if m.Name == name && e.Type != serf.EventMemberJoin {
+							got = append(got, c16Kind(e.Type))
+						}
+					}
+				case serf.UserEvent:
+					if e.Name == marker {
+						seen = true
+					}
+				}
+			}
+			if !seen {
+				if time.Now().After(deadline) {
+					stats["racing_watchdog"]++
+					return viols, stats
+				}
+				time.Sleep(200 * time.Microsecond)
+				continue
+			}
+			stats["prune_sequences"]++
+			if strings.Join(got, ",") != want {
+				viols = append(viols, fmt.Sprintf("member %s departed and was then force-left with prune: the application saw %v, the order of what happened is [%s]", name, got, want))
+			}
+			break
+		}
+	}
 	return
 }
 
